@@ -7,7 +7,7 @@ P="$(readlink -f "$1")"; ID="$2"; B="${3:-15}"
 WT="/var/tmp/verif-wt-$$"
 git -C /repo worktree add -q --detach "$WT" HEAD || exit 2
 cd "$WT" && git apply "$P" || { echo "patch does not apply"; git -C /repo worktree remove --force "$WT"; exit 2; }
-cd /verif && VERIF_REPO="$WT" VERIF_BUDGET_S="$B" VERIF_WORKERS="${VERIF_WORKERS:-16}" ./check "$ID" quick; rc=$?
+cd "${VERIF_HOME:-/verif}" && VERIF_REPO="$WT" VERIF_BUDGET_S="$B" VERIF_WORKERS="${VERIF_WORKERS:-16}" ./check "$ID" quick; rc=$?
 git -C /repo worktree remove --force "$WT"
 echo "mutant_wt exit=$rc"
 exit $rc
